@@ -187,6 +187,30 @@ pub trait Driver {
         }
     }
 
+    /// Like `until_bestmove`, but while nothing arrives the search thread's liveness is probed every
+    /// few seconds with a harmless command (`debug off` goes to the search thread's mailbox; handing
+    /// it over fails once that thread is gone), so a crashed search is reported at once instead of
+    /// after the whole watchdog period.
+    fn await_bestmove(&mut self, total: Duration) -> Result<Vec<Out>, (WaitErr, Vec<Out>)> {
+        let deadline = Instant::now() + total;
+        let mut all = Vec::new();
+        loop {
+            let left = deadline.saturating_duration_since(Instant::now());
+            if left.is_zero() { return Err((WaitErr::Timeout, all)); }
+            match self.until_bestmove(left.min(Duration::from_secs(4))) {
+                Ok(mut v) => { all.append(&mut v); return Ok(all); }
+                Err((WaitErr::Disconnected, mut v)) => { all.append(&mut v); return Err((WaitErr::Disconnected, all)); }
+                Err((WaitErr::Timeout, mut v)) => {
+                    let progressed = !v.is_empty();
+                    all.append(&mut v);
+                    if !progressed && self.send(&Gui::Debug(false)).is_err() {
+                        return Err((WaitErr::Disconnected, all));
+                    }
+                }
+            }
+        }
+    }
+
     /// non-blocking drain (plus a short grace period)
     fn drain(&mut self, grace: Duration) -> Vec<Out> {
         let mut v = Vec::new();
